@@ -166,16 +166,18 @@ static int pk_compare(const ldb_comparator_t *cmp, const ldb_slice_t *x, const l
    question per file; the first file it calls 'after the compact pointer' becomes the file that must be picked */
 static int pk_oracle(const ldb_comparator_t *cmp, const ldb_slice_t *x, const ldb_slice_t *y) {
   const ldb_slice_t *cp = &g_vs->compact_pointer[g_exp_level];
-  const ldb_slice_t *k = (y == cp) ? x : y;   /* (the file objects are arbitrary pointers here: decide by position) */
+  const ldb_slice_t *k = (x == cp) ? y : x;
   int r = nondet_int();
   __CPROVER_assume(r > -2147483647 - 1);
+  /* input shape: the file metadata objects (arbitrary pointers in this unit) do not lie inside the version set object */
+  __CPROVER_assume(g_calls >= g_n || !__CPROVER_same_object(g_lvl_items[g_calls], g_vs));
   __CPROVER_assert(cmp == &g_vs->icmp, "keys are ordered by the version set's internal key comparator");
-  __CPROVER_assert(x == cp || y == cp, "a file key is compared with the compact pointer of the compaction's level");
+  __CPROVER_assert((x == cp) != (y == cp), "a file key is compared with the compact pointer of the compaction's level");
   __CPROVER_assert(g_calls < g_n && k == &((ldb_filemeta_t *)g_lvl_items[g_calls])->largest,
                    "the files of the level are examined in order, each once, by their LARGEST key");
   if (r > 0 && !g_any_pos) { g_any_pos = 1; g_exp_file = g_lvl_items[g_calls]; }
   g_calls++;
-  return (y == cp) ? r : -r;
+  return (x == cp) ? -r : r;
 }
 
 static void mk_world(int mode) {
